@@ -68,8 +68,8 @@ def decode_read(res, mode, block):
     return (res if isinstance(res, bytes) else res.encode()) + b'\n'
 
 
-def scenario_factory(nops, modes, separate_reader=False, planted=None, ops=None, sizes_opts=(1, 2)):
-    OPS = ops or ['write_ts', 'write_clock', 'read', 'read_block', 'extdel', 'reopen']
+def scenario_factory(nops, modes, separate_reader=False, planted=None, ops=None, sizes_opts=(1, 2), prewrites=(0,), pre_increasing=False):
+    OPS = ops or ['write_ts', 'write_clock', 'read', 'read_block', 'read_all', 'extdel', 'reopen']
     def scenario(e):
         mode = modes[e.choice('mode', len(modes))] if len(modes) > 1 else modes[0]
         fs, now = setup(e, mode)
@@ -99,18 +99,24 @@ def scenario_factory(nops, modes, separate_reader=False, planted=None, ops=None,
                 if op[0] == 'truncate-existing':
                     e.fail('overwrite', f"roll-over opened an existing log file with 'wb': {op[1]}; files {fs.listing()}", {'kind': 'overwrite'})
                 if op[0] == 'logged-error': e.fail('write-error', f'write() logged an error and dropped the record: {op[1]}', {'kind': 'write-error'})
-        for step in range(nops):
-            op = OPS[e.choice(f'op{step}', len(OPS))]
+        npre = prewrites[e.choice('prewrites', len(prewrites))] if len(prewrites) > 1 else prewrites[0]
+        last_pre_ts = [0]
+        plan = [('write_ts', True)] * npre + [(None, False)] * nops
+        for step, (forced, is_pre) in enumerate(plan):
+            op = forced if forced else OPS[e.choice(f'op{step}', len(OPS))]
             if op in ('write_ts', 'write_clock'):
-                if nwritten >= 6: continue
-                size = sizes_opts[e.choice(f'size{step}', len(sizes_opts))] if len(sizes_opts) > 1 else sizes_opts[0]
+                if nwritten >= 7: continue
+                size = sizes_opts[0] if (is_pre and pre_increasing) else sizes_opts[e.choice(f'size{step}', len(sizes_opts))] if len(sizes_opts) > 1 else sizes_opts[0]
                 k = nwritten; sizes.append(size); nwritten += 1
                 payload = rec_bytes(k, size)
                 ts = None
                 if op == 'write_ts':
                     t = e.fresh_int(f'ts{step}', 1, BIG - 1000); ts = SymTs(t)
+                    if is_pre and pre_increasing:
+                        if step > 0: e.assume(t > last_pre_ts[0])
+                        last_pre_ts[0] = t
                 data = payload if mode in ('bin', 'binl') else payload.decode() if mode == 'txt' else payload.decode()
-                n_before = [p for p, _ in fs.files]
+                ops_before = len(fs.oplog)
                 ret = log.write(data, ts)
                 e.observed('write')
                 check_fs()
@@ -128,13 +134,18 @@ def scenario_factory(nops, modes, separate_reader=False, planted=None, ops=None,
                 if not any(payload in bytes(d) for _, d in fs.files):
                     if newest is not None and any(fs.same(p, newest.path) for p in ext_deleted): removed.add(k)   # written into an externally deleted file
                     else: e.fail('write-lost', f'record {k} is in no file on disk right after write(): {fs.listing()}', {'kind': 'write-lost'})
-                for o in fs.oplog:
+                for o in fs.oplog[ops_before:]:          # only what this write() did (an older file of the same name may have been pruned long ago)
                     if o[0] == 'unlink' and o[3] == 'rolllog' and newest is not None and fs.same(o[1], newest.path):
                         e.fail('newest-pruned', f'retention removed the newest file {o[1]}', {'kind': 'newest-pruned'})
             elif op in ('read', 'read_block'):
                 res = rd.read(block=(op == 'read_block'))
                 if res is not None: e.observed('read')
                 deliver(res, op == 'read_block')
+            elif op == 'read_all':          # a following reader catches up completely (line by line)
+                for _ in range(2 * nwritten + 4):
+                    res = rd.read(block=False)
+                    if res is None: break
+                    deliver(res, False)
             elif op == 'extdel':
                 if not fs.files: continue
                 i = e.choice(f'del{step}', len(fs.files))
@@ -215,14 +226,18 @@ def harnesses(tier):
     hs = [
         Harness('c13.same_object', scenario_factory(4 if q else 5, ['bin', 'txt'] if q else ['bin', 'binl', 'txt', 'json']),
                 twin=scenario_factory(2, ['bin'], planted='oracle'),
-                bounds={'operations': 4 if q else 5, 'op kinds': 'write(ts) write(clock) read read_block external-delete close+reopen(seek tell)', 'modes': 'bin,txt' if q else 'all four',
+                bounds={'operations': 4 if q else 5, 'op kinds': 'write(ts) write(clock) read read_block read-all external-delete close+reopen(seek tell)', 'modes': 'bin,txt' if q else 'all four',
                         'file_size': 'unbounded Int >= 1', 'total_size': 'unbounded Int >= 1', 'timestamps': 'unbounded Int microseconds, equal and decreasing allowed'},
-                functions=fn, stubs=stubs, assumptions=assume, real_replay=real_replay, budget_s=900 if q else 2400),
-        Harness('c13.separate_reader', scenario_factory(4 if q else 5, ['txt'] if q else ['bin', 'txt'], separate_reader=True,
-                                                        ops=['write_ts', 'read', 'read_block', 'extdel', 'reopen', 'refresh']),
-                bounds={'operations': 4 if q else 5, 'reader': 'separate read-only RollLog with autorefresh', 'modes': 'txt' if q else 'bin,txt'},
-                functions=fn, stubs=stubs, assumptions=assume, real_replay=real_replay, budget_s=900 if q else 2400),
+                functions=fn, stubs=stubs, assumptions=assume, real_replay=real_replay, budget_s=400 if q else 2400),
+        Harness('c13.separate_reader', scenario_factory(3 if q else 4, ['txt'] if q else ['bin', 'txt'], separate_reader=True, prewrites=(0,) if q else (0, 2, 3),
+                                                        ops=['write_ts', 'read', 'read_all', 'read_block', 'extdel', 'reopen', 'refresh']),
+                bounds={'initial writes': 0 if q else '0, 2 or 3', 'operations after them': 3 if q else 4, 'reader': 'separate read-only RollLog with autorefresh', 'modes': 'txt' if q else 'bin,txt'},
+                functions=fn, stubs=stubs, assumptions=assume, real_replay=real_replay, budget_s=400 if q else 2400),
     ]
+    hs.append(Harness('c13.catch_up', scenario_factory(3 if q else 4, ['txt'] if q else ['txt', 'bin'], prewrites=(3,) if q else (3, 4), pre_increasing=True,
+                                                     ops=['write_ts', 'read', 'read_all', 'reopen'] if q else ['write_ts', 'write_clock', 'read', 'read_all', 'read_block', 'reopen', 'extdel']),
+                      bounds={'initial writes': '3 (increasing symbolic timestamps, 2-byte records)' if q else '3-4', 'operations after them': 3 if q else 4, 'op kinds': 'write(ts) read read-all reopen' if q else 'all',
+                              'file_size, total_size': 'unbounded Int >= 1'}, functions=fn, stubs=stubs, assumptions=assume, real_replay=real_replay, budget_s=400 if q else 2400))
     return hs
 
 
